@@ -65,11 +65,18 @@ def resultLine (k : Kind) (size fsize : Int) : Res → String
 def trimNl (s : String) : String := (s.replace "\n" " ").trimAscii.toString
 
 def parseKind : String → Option Kind
-  | "arr" => some .arr | "str" => some .str | "buf" => some .buf | _ => none
+  | "arr" => some .arr | "str" => some .str | "buf" => some .buf
+  | "aarr" => some .arr      -- array of reference-counted elements ({ code }): same index arithmetic, same codes
+  | _ => none
 
 def runIdxOp (lim : Limits) (op : String) (k : Kind) (size i j r : Int) : Option R :=
   match op with
-  | "index" => some (opIndex k size i)
+  | "index" | "tindex" => some (opIndex k size i)
+  | "trindex" => some (opRindex k size i)
+  | "tne" => some (opErange lim k false size i)
+  | "tre" => some (opErange lim k true size i)
+  | "tnn" => some (opRange lim k false false size i r)
+  | "trr" => some (opRange lim k true true size i r)
   | "rindex" => some (opRindex k size i)
   | "lindex" => some (opLindex k false false size i r)
   | "lrindex" => some (opLindex k true false size i r)
@@ -99,7 +106,11 @@ def cmdEvents (lim : Limits) (scfg : StackCfg) (line : String) : List Ev × Bool
       match parseKind kind with
       | some k =>
         match runIdxOp lim op k size i j r with
-        | some (.ok out) => ([.result (resultLine k size r out.res)], true)
+        | some (.ok out) =>
+          -- `aarr`: the elements are one-element arrays ({ code }), so an indexed element prints as such
+          match kind == "aarr", out.res with
+          | true, .elem off => ([.result ("r " ++ summary .arr [readAt k size off])], true)
+          | _, _ => ([.result (resultLine k size r out.res)], true)
         | some (.error (.lpc m)) => ([.lpcError (trimNl m), .result "r !err"], true)
         | some (.error (.ub _)) => ([.ub "signed-overflow"], false)
         | some (.error (.fatal m)) => ([.crash ("fatal " ++ m)], false)
@@ -166,6 +177,14 @@ def parseEv (l : String) : Ev :=
   else if l.startsWith "sanitizer " then .sanitizer (l.drop 10).toString
   else if l.startsWith "crash " then .crash (l.drop 6).toString
   else if l.startsWith "stack " || l.startsWith "progs " then .info l
+  else if l.startsWith "reent " then
+    let kv (key : String) : String :=
+      match (toks l).find? (·.startsWith (key ++ "=")) with
+      | some t => (t.drop (key.length + 1)).toString
+      | none => ""
+    match (kv "tests").toNat?, (kv "bad").toNat? with
+    | some t, some b => .reent t b (kv "first")
+    | _, _ => .malformed l
   else .malformed l
 
 /-- `expect-abort <trace line>`: annotation carried by the witness inputs of OPEN KNOWN FINDINGS that need a whole
@@ -174,6 +193,11 @@ def modelEventsAux (lim : Limits) (scfg : StackCfg) : Option String → List Str
   | _, [] => []
   | pending, l :: rest =>
     if l.startsWith "expect-abort " then modelEventsAux lim scfg (some (l.drop 13).toString) rest
+    else if l.startsWith "reent-expect " then
+      -- the next program runs this many re-entrancy tests and every result equals its LPC reference
+      match ((l.drop 13).toString.trimAscii.toString).toNat? with
+      | some n => Ev.reent n 0 "" :: modelEventsAux lim scfg pending rest
+      | none => Ev.malformed l :: modelEventsAux lim scfg pending rest
     else
       match pending, l.startsWith "run " with
       | some t, true => [parseEv t]
@@ -192,6 +216,7 @@ def render : Ev → String
   | .sanitizer w => "sanitizer " ++ w
   | .crash w => "crash " ++ w
   | .malformed l => "bad-line " ++ l
+  | .reent t b f => s!"reent tests={t} bad={b}" ++ (if f.isEmpty then "" else " first=" ++ f)
 
 def runModel (lines : List String) : List String :=
   (modelEvents {} {} lines).map render
